@@ -1065,7 +1065,7 @@ def cs_cases(seed, n, prefix="cs"):
             for _ in range(k):
                 nid += 1
                 live.append(nid)
-                ops.append("XN %d %s %d" % (nid, Sn, rng.choice([1, 1, 2, 5])))
+                ops.append("%s %d %s %d" % (rng.choice(["XN", "XN", "XS"]), nid, Sn, rng.choice([1, 1, 2, 5])))
             ops += ["XQ %d" % c for c in live] + ["XT"] + ["XQ %d" % c for c in live]
         for _ in range(rng.randrange(6, 40)):
             x = rng.random()
@@ -1084,7 +1084,7 @@ def cs_cases(seed, n, prefix="cs"):
             if x < 0.16 and len(live) < 5 and not deleted:
                 nid += 1
                 live.append(nid)
-                ops.append("XN %d %s %d" % (nid, Sn, rng.choice([1, 1, 2, 5])))
+                ops.append("%s %d %s %d" % (rng.choice(["XN", "XN", "XS"]), nid, Sn, rng.choice([1, 1, 2, 5])))
             elif x < 0.46 and live:
                 c = rng.choice(live)
                 ops.append("XQ %d" % c)
